@@ -625,6 +625,11 @@ class Verifier:
                 v = self.module_name(m2, attr, I)
                 if v is not None:
                     return v
+                if rel.endswith("__init__.py"):
+                    # `from . import submodule` / `from pkg import submodule`
+                    sub = os.path.join(os.path.dirname(rel), attr + ".py")
+                    if os.path.exists(os.path.join(self.repo, sub)):
+                        return VModule(name, frontend.load_module(sub, self.repo))
                 return None
             modname, attr, _ = mod.imports[name]
             return self.external(modname, attr)
@@ -675,7 +680,18 @@ class Verifier:
             fc = getattr(t, "fc", None)
             if fc is not None:
                 stmts += list(fc.effects) + list(fc.effects_before) + list(fc.effects_exc)
-        out = set()
+        # ghost traces written by the model hooks of pyvc/externals.py (open/write, private file-name model)
+        out = {"fs_opens", "fs_writes", "rfs"}
+        # ghost state named in a callee contract's `modifies`
+        for c in list(self.reg.contracts.values()) + list(self.reg.variants) + list(self.reg.assumed):
+            for c2 in [c] + [x for x in c.funcs.values() if hasattr(x, "modifies")]:
+                for m in c2.modifies:
+                    try:
+                        r = _root(ast.parse(m.strip(), mode="eval").body)
+                    except SyntaxError:
+                        r = None
+                    if r and r != "self":
+                        out.add(r)
         for st in stmts:
             try:
                 body = ast.parse(st.strip()).body
@@ -727,6 +743,9 @@ class Verifier:
         if q is None:
             return None
         c = self.contracts.get(q)
+        if self.cur is not None and q in self.cur.funcs:
+            # per-contract override: this contract names the callee contract it relies on (`funcs={key: Contract}`)
+            c = self.cur.funcs[q]
         if c is None or c.inline:
             return None
         if I.spec and c.pure_result is None:
@@ -998,6 +1017,11 @@ class Verifier:
                 if c.returns is not None:
                     result = I.coerce_value(result, self.types.parse(c.returns))
                 for st in c.post_setup:
+                    if st.startswith("call:"):
+                        # follow-up call on the post-state (two-call contracts): an escaping exception is a failed
+                        # obligation `<contract>/post-call:no-exception:<Class>`, not an engine limitation
+                        I.exec_ghost(st[5:], env, extra={"result": result}, raise_obl="%s/post-call:no-exception" % c.short)
+                        continue
                     I.exec_ghost(st, env, extra={"result": result}, skip_unbound=True)
                 for nm, src in c.ensures:
                     phi = I.eval_spec(src, env, extra={"result": result})
@@ -1020,8 +1044,12 @@ class Verifier:
         for cls, cond in allowed:
             if cond is not None and exc_is_sub(exc.cls, cls):
                 path.prove(I.eval_spec(cond, I.old_env), "%s/raises-only-if:%s" % (c.short, cls), "raises", where=cond)
+        # `exc_msg`: the first constructor argument of the escaping exception when it is a string
+        extra = {"exc": exc}
+        if exc.args and isinstance(exc.args[0], VStr):
+            extra["exc_msg"] = exc.args[0]
         for nm, src in c.ensures_exc:
-            path.prove(I.eval_spec(src, env, extra={"exc": exc}), "%s/post-exc:%s" % (c.short, nm), "post", where=src)
+            path.prove(I.eval_spec(src, env, extra=extra), "%s/post-exc:%s" % (c.short, nm), "post", where=src)
 
 
 def region_body(c, mod, node):
@@ -1061,7 +1089,7 @@ def region_body(c, mod, node):
     return hits[0]
 
 
-def exec_ghost(self, st, env, extra=None, skip_unbound=False):
+def exec_ghost(self, st, env, extra=None, skip_unbound=False, raise_obl=None):
     node = ast.parse(st.strip()).body
     e2 = Env(env, env.module)
     if extra:
@@ -1073,6 +1101,9 @@ def exec_ghost(self, st, env, extra=None, skip_unbound=False):
     try:
         self.exec_block(node, e2)
     except PyRaise as pr:
+        if raise_obl is not None:
+            self.path.prove(z3.BoolVal(False), "%s:%s" % (raise_obl, pr.exc.cls), "raises", where=st)
+            raise PathEnd("follow-up call raised")
         if pr.exc.cls != "NameError" or not skip_unbound:
             raise Unsupported("ghost statement raised %s: %s" % (pr.exc.cls, st))
         # a ghost statement that mentions a local not bound on this path is skipped
